@@ -17,6 +17,8 @@ EXTENDS Integers, Sequences, FiniteSets, TLC, Json
 CONSTANTS Bases, Mutations
 VARIABLES bi, mut, obs
 vars == <<bi, mut, obs>>
+GenericMutations == {"g_none", "g_undefined_parameter_in_transition", "g_undefined_compartment_in_transition", "g_duplicate_code_name", "g_duplicate_display_name", "g_reserved_name",
+                     "g_self_reference", "g_unsupported_call", "g_undefined_dependency", "g_delete_parameters_sheet", "g_delete_format_column", "g_add_output_parameter"}
 Listed == {"max", "min", "exp", "floor", "sqrt", "ln", "cos", "sin", "sdiv"}
 Reserved == {"t", "flow", "all", "dt", "total"}
 RequiredSheets == {"parameters"}     \* the only sheet the library insists on (a framework without transitions is an output-only model)
@@ -31,7 +33,7 @@ Kind(f, n) == (CHOOSE c \in f.comps : c.name = n).kind
 Units(f, n) == (CHOOSE p \in f.pars : p.name = n).units
 RefsDefined(f) == /\ \A t \in f.trans : t[1] \in {c.name : c \in f.comps} /\ t[2] \in {c.name : c \in f.comps} /\ t[3] \in {p.name : p \in f.pars}
                   /\ \A c \in f.characs : c.parts \subseteq ({x.name : x \in f.comps} \cup {x.name : x \in f.characs}) /\ (c.denom = "" \/ c.denom \in Names(f))
-                  /\ \A p \in f.pars : p.deps \subseteq (Names(f) \cup {"t", "dt"})
+                  /\ \A p \in f.pars : p.deps \subseteq (Names(f) \cup {"t", "dt"} \cup f.extranames)
 LinkUnits(f) == \A t \in f.trans : (t[1] \in {c.name : c \in f.comps} /\ t[3] \in {p.name : p \in f.pars}) =>
                   /\ (Kind(f, t[1]) = "junction" <=> Units(f, t[3]) = "proportion")
                   /\ (Kind(f, t[1]) = "source" => Units(f, t[3]) = "number")
@@ -85,6 +87,20 @@ Mutate(f, m) ==
     [] m = "blank_optional_column" -> f                       \* an optional column that is present but empty changes nothing
     [] m = "delete_optional_sheet" -> [f EXCEPT !.sheets = @ \ {"databook pages"}]
     [] m \in {"databook_delete_table", "databook_unit_mismatch", "databook_unit_mismatch_compartment", "databook_blank_required_values", "databook_unknown_population", "databook_delete_state_sheet"} -> [f EXCEPT !.datadefects = @ \cup {m}]
+    \* ---- generic mutations, phrased over the anchors of the base (f.anch: a transition parameter tpar, two compartments c1 -> c2 without a
+    \*      transition, a function parameter fpar, another parameter p2) so that they apply to library files as well as to the generated base
+    [] m = "g_none" -> f
+    [] m = "g_undefined_parameter_in_transition" -> [f EXCEPT !.trans = @ \cup {<<f.anch.c1, f.anch.c2, "noparam">>}]
+    [] m = "g_undefined_compartment_in_transition" -> [f EXCEPT !.trans = @ \cup {<<f.anch.c1, "nowhere", f.anch.tpar>>}]
+    [] m = "g_duplicate_code_name" -> [f EXCEPT !.dupcodes = 1]
+    [] m = "g_duplicate_display_name" -> [f EXCEPT !.dupdisplay = 1]
+    [] m = "g_reserved_name" -> [f EXCEPT !.pars = @ \cup {Par("t", "", {}, {})}]
+    [] m = "g_self_reference" -> [f EXCEPT !.pars = {IF p.name = f.anch.fpar THEN Par(p.name, p.units, p.deps \cup {p.name}, p.calls) ELSE p : p \in @}]
+    [] m = "g_unsupported_call" -> [f EXCEPT !.pars = {IF p.name = f.anch.fpar THEN Par(p.name, p.units, p.deps, p.calls \cup {"foo"}) ELSE p : p \in @}]
+    [] m = "g_undefined_dependency" -> [f EXCEPT !.pars = {IF p.name = f.anch.fpar THEN Par(p.name, p.units, p.deps \cup {"ghost"}, p.calls) ELSE p : p \in @}]
+    [] m = "g_delete_parameters_sheet" -> [f EXCEPT !.sheets = @ \ {"parameters"}]
+    [] m = "g_delete_format_column" -> [f EXCEPT !.columns = @ \ {"parameters.format"}]
+    [] m = "g_add_output_parameter" -> [f EXCEPT !.pars = @ \cup {Par("extra", "", {f.anch.c1}, {"max"})}]
     [] m \in {"progbook_none", "progbook_lowercase_flags", "progbook_zero_outcome"} -> f          \* spelling of Y/N flags, an outcome of exactly 0: no rule broken
     [] m = "progbook_unknown_population" -> [f EXCEPT !.pb.tpops = @ \cup {"nobody"}]
     [] m = "progbook_unknown_compartment" -> [f EXCEPT !.pb.tcomps = @ \cup {"ghost"}]
@@ -98,11 +114,12 @@ Mutate(f, m) ==
     [] m \in {"progbook_no_target_compartment", "progbook_no_target_population"} -> [f EXCEPT !.pb.untargeted = {"P1"}]
     [] m \in {"progbook_missing_unit_cost", "progbook_missing_spending", "progbook_outcome_without_baseline", "progbook_bad_coverage_interaction", "progbook_mixed_currencies",
               "progbook_delete_effects_sheet", "progbook_delete_spending_sheet", "progbook_interaction_program_without_outcome"} -> [f EXCEPT !.pb.defects = @ \cup {m}]
-Verdict(m) == IF m \in {"progbook_none", "progbook_lowercase_flags", "progbook_zero_outcome", "none", "add_output_parameter", "blank_optional_column", "delete_optional_sheet", "delete_transitions_sheet", "characteristic_on_unlisted_page", "capitalised_units"} THEN "accept" ELSE "reject"
+Verdict(m) == IF m \in {"g_none", "g_add_output_parameter", "progbook_none", "progbook_lowercase_flags", "progbook_zero_outcome", "none", "add_output_parameter", "blank_optional_column", "delete_optional_sheet", "delete_transitions_sheet", "characteristic_on_unlisted_page", "capitalised_units"} THEN "accept" ELSE "reject"
 
 Init == bi \in 1..Len(Bases) /\ mut = "" /\ obs = ""
+Applies(b, m) == b.id = "sirj" \/ m \in GenericMutations
 Pick == /\ mut = ""
-        /\ \E m \in Mutations : mut' = m /\ obs' = ToJson([base |-> Bases[bi].id, mutation |-> m, verdict |-> Verdict(m)])
+        /\ \E m \in {x \in Mutations : Applies(Bases[bi], x)} : mut' = m /\ obs' = ToJson([base |-> Bases[bi].id, mutation |-> m, verdict |-> Verdict(m)])
         /\ UNCHANGED bi
 Spec == Init /\ [][Pick]_vars
 BaseValid == Valid(Bases[bi])
